@@ -476,7 +476,7 @@ def _split_params(params):
 
 def collect_clauses(unit):
     """Tagged contract clauses `/*@C01,C07 #label*/ ...` inside function / lemma regions."""
-    tag_re = re.compile(r"/\*@\s*([C0-9, ]+?)\s*(?:#(\w+))?\s*(?:unless=(\w+))?\s*\*/")
+    tag_re = re.compile(r"/\*@\s*([C0-9, ]+?)\s*(?:#(\w+))?\s*(?:unless=(\w+))?\s*(shared)?\s*\*/")
     regions = unit.fns + unit.lemmas
     for idx, ln in enumerate(unit.out_lines):
         for m in tag_re.finditer(ln):
@@ -487,7 +487,7 @@ def collect_clauses(unit):
                     fn = f
                     break
             unit.clauses.append({"fn": fn["qual"] if fn else None, "tags": [t.strip() for t in m.group(1).split(",") if t.strip()],
-                                 "label": m.group(2), "unless": m.group(3), "out_line": line})
+                                 "label": m.group(2), "unless": m.group(3), "shared": bool(m.group(4)), "out_line": line})
 
 
 def write_unit(unit, outdir):
